@@ -508,17 +508,18 @@ theorem idOf_of_hdrOf {s t : Sq} (h : hdrOf s = hdrOf t) : idOf s = idOf t := by
     `min C_k (previous window size)`, `min W_k (left)` new residues, 1-based contiguous coordinates, the residues `R[start..end]`), then
     `eslEOD` with `L = |R|`, the same name / accession / description / `roff` / `hoff` / `doff`, and leaves the cursor where `Read` leaves it. -/
 theorem windows_eq_read (a : Ascii) (sq : Sq) (R : Ready a sq) (hs : sq.seq = #[]) (hst : sq.start = 0)
-    (hok : (read a sq).2.2 = .ok) (req : Nat → Int × Int) (hreq : ∀ k, 0 ≤ (req k).1 ∧ 1 ≤ (req k).2) :
-    (readWindowsM req ((read a sq).2.1.seq.size + 2) 0 a sq).1.map toWin =
-      specWindows (read a sq).2.1.seq req ((read a sq).2.1.seq.size + 2) 0 0 0 ∧
-    (readWindowsM req ((read a sq).2.1.seq.size + 2) 0 a sq).2.2.2 = .eod ∧
-    (readWindowsM req ((read a sq).2.1.seq.size + 2) 0 a sq).2.2.1.seq = #[] ∧
-    (readWindowsM req ((read a sq).2.1.seq.size + 2) 0 a sq).2.2.1.L = (read a sq).2.1.L ∧
-    (readWindowsM req ((read a sq).2.1.seq.size + 2) 0 a sq).2.2.1.start = 0 ∧
-    hdrOf (readWindowsM req ((read a sq).2.1.seq.size + 2) 0 a sq).2.2.1 = hdrOf (read a sq).2.1 ∧
-    Cur (readWindowsM req ((read a sq).2.1.seq.size + 2) 0 a sq).2.1 ∧
-    fileFrom (readWindowsM req ((read a sq).2.1.seq.size + 2) 0 a sq).2.1 = fileFrom (read a sq).1 ∧
-    stat (readWindowsM req ((read a sq).2.1.seq.size + 2) 0 a sq).2.1 = stat a := by
+    (hok : (read a sq).2.2 = .ok) (req : Nat → Int × Int) (hreq : ∀ k, 0 ≤ (req k).1 ∧ 1 ≤ (req k).2)
+    (F : Nat) (hF : (read a sq).2.1.seq.size + 2 ≤ F) :
+    (readWindowsM req F 0 a sq).1.map toWin =
+      specWindows (read a sq).2.1.seq req F 0 0 0 ∧
+    (readWindowsM req F 0 a sq).2.2.2 = .eod ∧
+    (readWindowsM req F 0 a sq).2.2.1.seq = #[] ∧
+    (readWindowsM req F 0 a sq).2.2.1.L = (read a sq).2.1.L ∧
+    (readWindowsM req F 0 a sq).2.2.1.start = 0 ∧
+    hdrOf (readWindowsM req F 0 a sq).2.2.1 = hdrOf (read a sq).2.1 ∧
+    Cur (readWindowsM req F 0 a sq).2.1 ∧
+    fileFrom (readWindowsM req F 0 a sq).2.1 = fileFrom (read a sq).1 ∧
+    stat (readWindowsM req F 0 a sq).2.1 = stat a := by
   obtain ⟨q1, q2, _, _⟩ := read_spec a sq R
   rw [q1] at hok
   obtain ⟨m1, _, m3, _⟩ := q2 hok
@@ -535,8 +536,9 @@ theorem windows_eq_read (a : Ascii) (sq : Sq) (R : Ready a sq) (hs : sq.seq = #[
   obtain ⟨h1, h2, _, _⟩ := headerFasta_spec a sq R.cur hl R.nalloc R.dalloc
   obtain ⟨u1, u2, u3, _, _⟩ := headerL_keeps a.file.size sq (fileFrom a)
   rw [m1, m3]
-  unfold recL at hok ⊢
-  simp only [hne, Bool.false_eq_true, if_false] at hok ⊢
+  rw [m1] at hF
+  unfold recL at hok hF ⊢
+  simp only [hne, Bool.false_eq_true, if_false] at hok hF ⊢
   have hH : (headerL a.file.size sq (fileFrom a)).1 = .ok := by
     by_cases hh : (headerL a.file.size sq (fileFrom a)).1 = .ok
     · exact hh
@@ -544,11 +546,11 @@ theorem windows_eq_read (a : Ascii) (sq : Sq) (R : Ready a sq) (hs : sq.seq = #[
       simp only [hb, Bool.false_eq_true, if_false] at hok
       exact absurd hok hh
   have hb : ((headerL a.file.size sq (fileFrom a)).1 == Status.ok) = true := by rw [hH]; rfl
-  simp only [hb, if_true] at hok ⊢
+  simp only [hb, if_true] at hok hF ⊢
   obtain ⟨c1, c2, c3⟩ := h2 hH
   generalize headerL a.file.size sq (fileFrom a) = HL at *
   obtain ⟨hstt, hsq, l0⟩ := HL
-  simp only [] at h1 hH c1 c2 c3 u1 u2 u3 hok ⊢
+  simp only [] at h1 hH c1 c2 c3 u1 u2 u3 hok hF ⊢
   subst hH
   -- the data of the record
   have hsplit : l0 = l0.takeWhile (isData a.inmap) ++ l0.dropWhile (isData a.inmap) := (List.takeWhile_append_dropWhile).symm
@@ -572,6 +574,7 @@ theorem windows_eq_read (a : Ascii) (sq : Sq) (R : Ready a sq) (hs : sq.seq = #[
       simp [this, Sq.setWhole, stored, u3, hs, Sq.n, hdrOf]
   obtain ⟨g1, g2, g3, g4⟩ := hseqR
   rw [g1, g2, g3, g4]
+  rw [g1] at hF
   generalize hD : l0.takeWhile (isData a.inmap) = D at *
   generalize hr0 : l0.dropWhile (isData a.inmap) = rest0 at *
   -- the first call
@@ -612,8 +615,8 @@ theorem windows_eq_read (a : Ascii) (sq : Sq) (R : Ready a sq) (hs : sq.seq = #[
   have hRs : (resOf a.inmap (mapFor a.inmap sq) D).size = nresOf a.inmap D := resOf_size _ _ _
   have hid1 : hdrOf ({ sq1 with start := 1, C := 0, L := -1, source := cstr sq1.name } : Sq) = hdrOf sq1 := rfl
   have hstat1 : stat ({ a1 with L := 0 } : Ascii) = stat a := c3
-  rw [show (resOf a.inmap (mapFor a.inmap sq) D).size + 2 = ((resOf a.inmap (mapFor a.inmap sq) D).size + 1) + 1 from rfl,
-    readWindowsM_succ, specWindows_succ]
+  obtain ⟨F', rfl⟩ : ∃ F', F = F' + 1 := ⟨F - 1, by omega⟩
+  rw [readWindowsM_succ, specWindows_succ]
   by_cases hz : min (req 0).2.toNat (nresOf a.inmap D) = 0
   · obtain ⟨k1, k2, k3, k4, k5, k6, k7, k8⟩ := s2 hz
     have hb2 : ((readWindow a sq (req 0).1 (req 0).2).2.2 == Status.ok) = false := by rw [k1]; decide
@@ -626,7 +629,7 @@ theorem windows_eq_read (a : Ascii) (sq : Sq) (R : Ready a sq) (hs : sq.seq = #[
     have hle : ¬ (resOf a.inmap (mapFor a.inmap sq) D).size ≤ 0 := by omega
     simp only [hb2, if_true, hle, if_false, List.map_cons]
     obtain ⟨j1, j2, j3, j4, j5, j6, j7, j8, j9⟩ := windows_rest req hreq a.inmap (mapFor a.inmap sq) D rest0
-      ((resOf a.inmap (mapFor a.inmap sq) D).size + 1) 1 _ _ D1' D2' I' (by omega)
+      F' 1 _ _ D1' D2' I' (by omega)
     refine ⟨?_, j2, j3, j4, j5, (j6.trans k3).trans hid1, j7, j8, (j9.trans k5).trans hstat1⟩
     rw [j1, k2, e1, k4]
     simp [hRs]
@@ -638,7 +641,7 @@ theorem windows_concat_eq_read (a : Ascii) (sq : Sq) (R : Ready a sq) (hs : sq.s
     (hok : (read a sq).2.2 = .ok) (req : Nat → Int × Int) (hreq : ∀ k, 0 ≤ (req k).1 ∧ 1 ≤ (req k).2) :
     ((readWindowsM req ((read a sq).2.1.seq.size + 2) 0 a sq).1.map toWin).foldl (fun acc x => acc ++ newPart x) #[] =
       (read a sq).2.1.seq := by
-  rw [(windows_eq_read a sq R hs hst hok req hreq).1,
+  rw [(windows_eq_read a sq R hs hst hok req hreq _ (Nat.le_refl _)).1,
     specWindows_concat (read a sq).2.1.seq req (fun k => (hreq k).2) _ 0 0 0 #[] (Nat.le_refl _) (by omega)]
   simp
 
@@ -648,7 +651,7 @@ theorem windows_coords (a : Ascii) (sq : Sq) (R : Ready a sq) (hs : sq.seq = #[]
     ∀ x ∈ (readWindowsM req ((read a sq).2.1.seq.size + 2) 0 a sq).1.map toWin,
       x.end_ - x.start + 1 = x.C + x.W ∧ (x.seq.size : Int) = x.C + x.W ∧ 1 ≤ x.start ∧
       x.end_ ≤ ((read a sq).2.1.seq.size : Int) ∧ 0 ≤ x.C := by
-  rw [(windows_eq_read a sq R hs hst hok req hreq).1]
+  rw [(windows_eq_read a sq R hs hst hok req hreq _ (Nat.le_refl _)).1]
   exact specWindows_coords _ req _ 0 0 0 (Nat.le_refl _)
 
 
@@ -656,12 +659,13 @@ theorem windows_coords (a : Ascii) (sq : Sq) (R : Ready a sq) (hs : sq.seq = #[]
     next record exactly as after `sqascii_Read` + `esl_sq_Reuse` (cursor on the same byte, `start = 0`, no residues, allocations at
     least as large), so `windows_eq_read` applies again — record after record through the file -/
 theorem windows_then_ready (a : Ascii) (sq : Sq) (R : Ready a sq) (hs : sq.seq = #[]) (hst : sq.start = 0)
-    (hok : (read a sq).2.2 = .ok) (req : Nat → Int × Int) (hreq : ∀ k, 0 ≤ (req k).1 ∧ 1 ≤ (req k).2) :
-    Ready (readWindowsM req ((read a sq).2.1.seq.size + 2) 0 a sq).2.1 (readWindowsM req ((read a sq).2.1.seq.size + 2) 0 a sq).2.2.1 ∧
-    (readWindowsM req ((read a sq).2.1.seq.size + 2) 0 a sq).2.2.1.seq = #[] ∧
-    (readWindowsM req ((read a sq).2.1.seq.size + 2) 0 a sq).2.2.1.start = 0 ∧
-    fileFrom (readWindowsM req ((read a sq).2.1.seq.size + 2) 0 a sq).2.1 = fileFrom (read a sq).1 := by
-  obtain ⟨_, _, w3, _, w5, w6, w7, w8, w9⟩ := windows_eq_read a sq R hs hst hok req hreq
+    (hok : (read a sq).2.2 = .ok) (req : Nat → Int × Int) (hreq : ∀ k, 0 ≤ (req k).1 ∧ 1 ≤ (req k).2)
+    (F : Nat) (hF : (read a sq).2.1.seq.size + 2 ≤ F) :
+    Ready (readWindowsM req F 0 a sq).2.1 (readWindowsM req F 0 a sq).2.2.1 ∧
+    (readWindowsM req F 0 a sq).2.2.1.seq = #[] ∧
+    (readWindowsM req F 0 a sq).2.2.1.start = 0 ∧
+    fileFrom (readWindowsM req F 0 a sq).2.1 = fileFrom (read a sq).1 := by
+  obtain ⟨_, _, w3, _, w5, w6, w7, w8, w9⟩ := windows_eq_read a sq R hs hst hok req hreq F hF
   obtain ⟨q1, _, _, _⟩ := read_spec a sq R
   rw [q1] at hok
   obtain ⟨k1, k2, k3, k4⟩ := ParseFasta.recL_keeps a.inmap a.file.size sq (fileFrom a) hok
